@@ -12,7 +12,9 @@ PROP = 'C16'
 RULE = ("random valid schemas (constants and enumerators used in sizes and discriminators) are cut into 2..5 files at "
         "random points of their declaration order; every file #includes the files that define names it uses (diamonds "
         "arise naturally, an include may be listed twice). The split is compiled in arrangements: same directory; "
-        "sub-directories found through -I; relative paths from another working directory; absolute paths. Compared with "
+        "sub-directories found through -I; relative paths from another working directory; absolute paths; include "
+        "directives with ../, ./, absolute and -I-relative sub-directory paths whose targets include their own siblings. "
+        "One global name of the last file equals a member name of a type it includes. Compared with "
         "compiling the concatenation: constants and enumerators in the imported modules, model (size, alignment, kind) "
         "of every type, encodings of default/max/odd/random values through both builds (and the reference), g++ "
         "compilation of the generated C++ include chain, and - through a sys.addaudithook('open') monitor - that each "
@@ -25,7 +27,7 @@ ASSUMPTIONS = [
 TIMEOUT = {'quick': 1500, 'thorough': 10800}
 WORKERS = 10
 ARRANGEMENTS = ('same-dir', 'subdirs-I', 'other-cwd-relative', 'absolute', 'include-twice', 'dotdot-include',
-                'dot-slash-include', 'absolute-include')
+                'dot-slash-include', 'absolute-include', 'I-subpath-nested')
 
 
 def shards(ctx):
@@ -45,6 +47,21 @@ def true_deps(sch, d):
             if m.size_text and m.size_text in sch.by_name:
                 deps.add(m.size_text)
     return deps
+
+
+def collide_names(sch):
+    """Append a typedef whose *name* is a field (or arm) name of the composite it aliases: global names of one file
+    and member names of the types it includes live in different scopes and may coincide."""
+    for d in sch.defs:
+        if d.kind == 'struct' and d.members:
+            nm = d.members[-1].name
+        elif d.kind == 'union' and d.arms:
+            nm = d.arms[-1][2]
+        else:
+            continue
+        if nm not in sch.by_name:
+            sch.add(S.Typedef(nm, d.name))
+        return
 
 
 def make_split(sch, rng, twice=False):
@@ -129,7 +146,10 @@ def run_case(acc, audit, wd, idx, sch, rng, arrangement, want_cpp, seed):
     subdir = {}
     for i, (fn, part, incs) in enumerate(files):
         subdir[fn] = ('dir%d' % (i % 2) if arrangement == 'subdirs-I' else
-                      'd%d' % i if arrangement == 'dotdot-include' else '')
+                      'd%d' % i if arrangement == 'dotdot-include' else
+                      # the last file lives in app/ and names its includes "proto/<file>", found through -I inc; the
+                      # other files are siblings in inc/proto/ and include each other by bare name; app/ goes first
+                      ('app' if i == len(files) - 1 else 'inc/proto') if arrangement == 'I-subpath-nested' else '')
     for i, (fn, part, incs) in enumerate(files):
         sub = subdir[fn]
         dd = os.path.join(split_dir, 'src', sub)
@@ -138,7 +158,13 @@ def run_case(acc, audit, wd, idx, sch, rng, arrangement, want_cpp, seed):
         if arrangement == 'subdirs-I' and dd not in incdirs:
             incdirs.append(dd)
         paths[fn] = os.path.join(dd, fn)
-        if arrangement == 'dotdot-include':
+        if arrangement == 'I-subpath-nested':
+            if dd.endswith('app'):
+                incdirs.append(os.path.join(split_dir, 'src', 'inc'))
+                pre = lambda f: 'proto/' + f                                   # noqa
+            else:
+                pre = lambda f: f                                              # noqa
+        elif arrangement == 'dotdot-include':
             pre = lambda f: '../%s/%s' % (subdir[f], f)                      # noqa
         elif arrangement == 'dot-slash-include':
             pre = lambda f: './' + f                                           # noqa
@@ -155,6 +181,10 @@ def run_case(acc, audit, wd, idx, sch, rng, arrangement, want_cpp, seed):
         args += ['-I', dd]
     order = list(paths)
     rng.shuffle(order)
+    if arrangement == 'I-subpath-nested':
+        # the includer first: nothing it needs has been processed (and cached) yet
+        order.remove(files[-1][0])
+        order.insert(0, files[-1][0])
     cwd0 = os.getcwd()
     try:
         if arrangement == 'other-cwd-relative':
@@ -303,6 +333,7 @@ def run_shard(spec):
                 sch = S.random_schema(random.Random(rng.random()), ntypes=rng.randint(4, 12), cpp_full=spec['cpp'])
                 if len(sch.defs) >= 3:
                     break
+            collide_names(sch)
             for arrangement in (ARRANGEMENTS if not spec.get('extra') else [spec['extra']['arrangement']]):
                 idx += 1
                 run_case(acc, audit, wd, idx, sch, rng, arrangement, spec['cpp'] and arrangement == 'same-dir',
